@@ -41,6 +41,11 @@ Theorem C07_rle_same_sound : forall l1 l2, rle_same l1 l2 = true -> expandN l1 =
 Proof. exact rle_same_sound. Qed.
 Print Assumptions C07_rle_same_sound.
 
+(* ... and always says "same" for them: the encoding can never be the cause of an alarm *)
+Theorem C07_rle_same_complete : forall l1 l2, expandN l1 = expandN l2 -> rle_same l1 l2 = true.
+Proof. exact rle_same_complete. Qed.
+Print Assumptions C07_rle_same_complete.
+
 (* non-vacuity at scale: window 100000, threshold 3: three rejections, 70000 acknowledgments,
    and the fourth rejection is refused (the first three are still inside the window); after
    99998 acknowledgments instead it is tolerated (two have left the window) *)
